@@ -109,22 +109,20 @@ def rustNowValue (b : Bound) : Value :=
 def rustNowOutcome (h : Value) (calls : List Value) (res : Except ClientErrV Bound) : Rs.Outcome :=
   .ok (resultValue clientErrValue rustNowValue res) (clientValue h) calls
 
-/-- `clockbound_now_result { earliest, latest, clock_status }` as `clockbound_now` writes it: the status
-    is `clock_status.into()` at the declared type of the field, `clockbound_clock_status`
-    (`CodeTieErrors.ffi_status_from_eq` says what that conversion is) -/
+/-- `clockbound_now_result { earliest, latest, clock_status }` as `clockbound_now` writes it: the status is
+    `clock_status.into()` at the declared type of the field, i.e. `clockbound_clock_status::from(clock_status)` -/
 def ffiNowValue (b : Bound) : Value :=
   .struct "clockbound_now_result" [
-    ("clock_status", intoValue (statusValue b.2.2)),
+    ("clock_status", ffiStatusValue b.2.2),
     ("earliest", ctimespecValue b.1), ("latest", ctimespecValue b.2.1)]
 
-/-- `clockbound_now(ctx, output) -> *const clockbound_err`, as a function of the UNCONVERTED error: on
-    success one `write` through `output`, NULL returned; on an error `e` the reference `&ctx.err` is returned
-    after `ctx.err = e.into()` (`intoValue`: the conversion at the declared type of `clockbound_ctx.err`,
-    `clockbound_err`; `CodeTieErrors.ffi_from_eq` says what that conversion is) -/
-def ffiNowOutcome (calls : List Value) (res : Except ShmErrorV Bound) : Rs.Outcome :=
+/-- `clockbound_now(ctx, output) -> *const clockbound_err`: on success one `write` through `output`, NULL
+    returned; on an error the reference `&ctx.err` is returned after `ctx.err = e.into()`, i.e. (declared type of
+    `clockbound_ctx.err`) `clockbound_err::from(e)`: what is returned is the converted error -/
+def ffiNowOutcome (calls : List Value) (res : Except ClientErrV Bound) : Rs.Outcome :=
   match res with
   | .ok b => .ok nullPtr .unit (calls ++ [evWrite "output" (ffiNowValue b)])
-  | .error e => .ok (intoValue (shmErrorValue e)) .unit calls
+  | .error c => .ok (ffiErrValue c) .unit calls
 
 /-! ### `open()` -/
 
@@ -135,13 +133,13 @@ def rustOpenOutcome (path : String) (res : Except ShmErrorV Value) : Rs.Outcome 
     [evOpen (cstr (.str path)) (openResValue res)]
 
 /-- `clockbound_open(shm_path, err) -> *mut clockbound_ctx`: one call `ShmReader::new(CStr::from_ptr(shm_path))`;
-    on success the pointer to a new heap object `clockbound_ctx { err: Default::default(), reader }`
-    (`defaultValue`: at the declared type `clockbound_err`; `CodeTieErrors.ffi_default_eq` says what it is);
+    on success the pointer to a new heap object `clockbound_ctx { err: Default::default(), reader }`, the default
+    at the declared type `clockbound_err` of the field: kind NONE, errno 0, detail NULL;
     on an error `e`: NULL, after `err.write(e.into())` (`intoValue`: at the pointee type of the parameter
     `err: *mut clockbound_err`) when `err` is not NULL -/
 def ffiOpenOutcome (path : Value) (errNull : Bool) (res : Except ShmErrorV Value) : Rs.Outcome :=
   match res with
-  | .ok h => .ok (heapPtr (ctxValue defaultValue h)) .unit [evOpen (cstr path) (openResValue (.ok h))]
+  | .ok h => .ok (heapPtr (ctxValue (ffiErrValue ⟨.none, 0, none⟩) h)) .unit [evOpen (cstr path) (openResValue (.ok h))]
   | .error e =>
     .ok nullPtr .unit
       (evOpen (cstr path) (openResValue (.error e)) ::
